@@ -54,7 +54,10 @@ func loadProgram(repo, specDir string) (*Program, error) {
 		keyOf: map[*ssa.Function]string{}, tagTable: map[string]int{}, tagTypes: map[int]types.Type{},
 		modsets: map[*ssa.Function]*ModSet{}, typesPkg: map[string]*types.Package{}}
 	for f := range ssautil.AllFunctions(prog) {
-		if f.Pkg == nil || !isModulePkg(f.Pkg.Pkg) || f.Synthetic != "" {
+		if f.Pkg == nil || !isModulePkg(f.Pkg.Pkg) {
+			continue
+		}
+		if f.Synthetic != "" && f.Synthetic != "package initializer" {
 			continue
 		}
 		k := funcKey(f)
